@@ -187,6 +187,114 @@ def rule_conj(ck, u, name, f):
     ck.ob('conj-consistency', key, f.where(), True, '', trivial=not ips)
 
 
+def rule_normaliser(ck, name, f):
+    """normaliser-fresh: in  axpby(math::inverse(s), V, zero, W)  - a basis vector obtained by normalising V - the scalar s is, on every
+    path, the value of norm(V) taken after the last write to V.  (The Arnoldi / Krylov basis is orthonormal only then.)"""
+    from effects import locate
+    key = 'amgcl::solver::' + name
+    cfg = f.cfg
+    loc = locate(f)
+    al = c01.alias_roots(f)
+
+    def skey(e):
+        e = unwrap(e)
+        if e is None:
+            return None
+        if e['k'] == 'ref' and f.decl(e['d']).get('k') in ('local', 'param'):
+            return ('d', e['d'])
+        return ('t', show(e))
+
+    def norm_root(e):
+        e = unwrap(e)
+        if e is not None and e['k'] == 'call' and e.get('m') == 'norm' and len(e.get('a', [])) == 1:
+            return c01.root_key(f, e['a'][0], al)
+        return None
+    uses = []
+    for n in f.nodes.values():
+        if n['k'] != 'call' or prim_name(n) != 'axpby' or n['i'] not in loc:
+            continue
+        a = n['a']
+        c = unwrap(a[0])
+        if c is not None and c['k'] == 'ref':
+            c = unwrap(single_def(f, c['d']))       # scalar_type inv = math::inverse(s);
+        if c is None or c['k'] != 'call' or not (c.get('f') or '').endswith('math::inverse') or len(c.get('a', [])) != 1:
+            continue
+        if classify_coef(f, a[2]) != 'zero':
+            continue
+        uses.append((n, skey(c['a'][0]), c01.root_key(f, a[1], al)))
+    if not uses:
+        return 0
+    keys = {k for _, k, _ in uses}
+    events = {}
+
+    def add(n, kind, payload):
+        if n['i'] in loc:
+            b, pos = loc[n['i']]
+            events.setdefault(b, []).append((pos, n['i'], kind, payload))
+    for n in f.nodes.values():
+        if n['k'] == 'call':
+            pr = prim_name(n)
+            if pr is not None:
+                add(n, 'write', c01.root_key(f, n['a'][PRIMS[pr][1]], al))
+            elif n.get('m') == 'apply' and len(n.get('a', [])) == 2 and 'obj' in n:
+                add(n, 'write', c01.root_key(f, n['a'][1], al))
+            elif n.get('f') == 'amgcl::preconditioner::spmv' and len(n.get('a', [])) == 6:
+                add(n, 'write', c01.root_key(f, n['a'][4], al))
+                add(n, 'write', c01.root_key(f, n['a'][5], al))
+            elif n.get('m') == 'swap' or (n.get('f') or '').endswith('::swap'):
+                for x in n.get('a', []):
+                    add(n, 'write', c01.root_key(f, x, al))
+        elif n['k'] == 'decl':
+            for v in n['v']:
+                if ('d', v['d']) in keys:
+                    add(n, 'def', (('d', v['d']), norm_root(v['init']) if v.get('init') is not None else None))
+        elif n['k'] == 'bin' and n['op'] in ('=', '+=', '-=', '*=', '/='):
+            k = skey(n['x'])
+            if k in keys:
+                add(n, 'def', (k, norm_root(n['y']) if n['op'] == '=' else None))
+        elif n['k'] == 'un' and n['op'] in ('++', '--'):
+            k = skey(n['e'])
+            if k in keys:
+                add(n, 'def', (k, None))
+    for b in events:
+        events[b].sort(key=lambda t: (t[0], t[1]))
+
+    def step(evs, st):
+        st = dict(st)
+        for pos, nid, kind, p in evs:
+            if kind == 'write':
+                for k, r in list(st.items()):
+                    if r == p and r is not None:
+                        st[k] = ('stale',) + tuple(r)
+            else:
+                st[p[0]] = p[1] if p[1] is not None else ('other',)
+        return frozenset(st.items())
+
+    def join(a, b_):
+        a, b_ = dict(a), dict(b_)
+        out = {}
+        for k in set(a) | set(b_):
+            out[k] = a.get(k) if a.get(k) == b_.get(k) else ('mixed',)
+        return frozenset(out.items())
+    IN, OUT = cfg.forward(frozenset(), lambda b, st: step(events.get(b, ()), st), join=join)
+    for n, k, root in uses:
+        b, pos = loc[n['i']]
+        if b not in IN:
+            continue
+        st = dict(step([e for e in events.get(b, ()) if (e[0], e[1]) < (pos, n['i'])], IN[b]))
+        got = st.get(k)
+        ok = got is not None and got == root
+        sname = f.decl(k[1])['n'] if k[0] == 'd' else k[1]
+        if ok:
+            det = ''
+        elif got is not None and got[:1] == ('stale',):
+            det = '`%s` was computed as norm(%s) but %s is written again before it is normalised by `%s` at %s' % (sname, got[-1], got[-1], sname, f.where(n))
+        else:
+            det = '`%s` is not on every path the norm of the vector `%s` it normalises at %s' % (sname, show(n['a'][1]), f.where(n))
+        ck.ob('normaliser-fresh', '%s|%s' % (key, sname), f.where(n), ok, det)
+    return len(uses)
+
+
 def main(tier):
     ck = Check('C05', tier, 'C05 (clauses): Richardson iteration form, solution / residual lock-step of CG, BiCGStab, IDR(s), per-solve re-initialisation of the recurrence state.')
     T = os.path.join(ir.VERIF, 'tus')
@@ -197,6 +305,9 @@ def main(tier):
     ck.rule('richardson-form', 'one pass of the iteration loop of solver::richardson maps (x, r = f - A x) to (x + prm.damping * P r, f - A x_new) - symbolic execution over the backend primitives', 1)
     ck.rule('conj-consistency', 'inner products are conjugate-linear in the second argument: a fixed shadow vector paired with varying vectors is the second argument, and a projection '
                                 'coefficient <a, b> / <c, c> has its direction c as the second argument of the numerator (complex systems get the defining coefficients, not their conjugates)', 7)
+    ck.rule('A2.work-counted', 'every CFG cycle through an application of the system matrix A contains a modification of the returned iteration counter: maxiter = k stops after the '
+                               'k-th step (bicgstabl: the j < L loop is counted in bulk by `iter += L`)', 8)
+    ck.rule('normaliser-fresh', 'gmres, fgmres, lgmres: in axpby(inverse(s), V, 0, W) the scalar s is on every path norm(V) taken after the last write to V (unit basis vectors)', 6)
     ck.rule('B5.lock-step', 'cg, bicgstab, idrs: every x += c D is paired with a residual update -c V where V is the image of D under the (side-dependent) preconditioned operator', 3)
     ck.rule('B6.smoothing-siblings', 'idrs: the residual-smoothing block after the inner update and the one after the omega step are the same code', 1)
     seen = set()
@@ -207,6 +318,12 @@ def main(tier):
                 c01.rule_lockstep(ck, name, f)
             if name == 'richardson':
                 sym_iteration(ck, u, f)
+            kd = c01.counter_decl(f)
+            if kd is None:
+                ck.ob('A2.work-counted', 'amgcl::solver::' + name, f.where(), False, 'no unique returned iteration counter')
+            else:
+                c01.rule_counted(ck, name, f, kd)
+            rule_normaliser(ck, name, f)
             rule_conj(ck, u, name, inline.expand(f, inline.same_class_helper(keep=('norm', 'operator()'))))
         an = Analyzer([u])
         c15.rule_B(ck, an, {uname: u}, only=lambda f: f.cls.startswith('amgcl::solver::') and f.cls.split('::')[-1] in c01.SOLVERS, floor=8)
